@@ -18,21 +18,39 @@ Rows == {"zero", "one", "many"}
 \* tail: the allocation ends exactly at the end of the segment
 Places == {"between", "last", "tail"}
 
-Cases == {[shape |-> s, rows |-> r, place |-> p] : s \in Shapes, r \in Rows, p \in Places}
-\* the write either stays inside its allocation or does not happen (no fit -> None)
-Expected(c) == "within"
+\* ---- single writes: one batch written between live neighbours / before canary space / at the segment tail
+SingleCases == {[kind |-> "single", shape |-> s, rows |-> r, place |-> p, pattern |-> "-"] : s \in Shapes, r \in Rows, p \in Places}
+
+\* ---- write sequences on ONE segment: 2-3 consecutive writes whose schemas have the same fields and differ at most
+\* in metadata (pa.Schema.equals ignores it), or whose nested dictionary grows/shrinks, or that differ in rows only.
+\* The size of the varying part follows the pattern (S = small, L = large); every write of the chain is judged, and
+\* after every write all batches written earlier in the chain must still be intact.
+SeqFamilies == {"schema_meta", "field_meta", "both_meta", "nested_dict", "top_dict", "rows_only"}
+Patterns == {"up", "down", "up_down", "down_up", "same"}
+Levels(p) == CASE p = "up" -> <<"S", "L">> [] p = "down" -> <<"L", "S">> [] p = "up_down" -> <<"S", "L", "S">>
+               [] p = "down_up" -> <<"L", "S", "L">> [] p = "same" -> <<"L", "L">>
+SeqCases == {[kind |-> "seq", shape |-> f, rows |-> r, place |-> "chain", pattern |-> p] : f \in SeqFamilies, r \in Rows, p \in Patterns}
+
+Cases == SingleCases \cup SeqCases
+\* the write either stays inside its allocation or does not happen (no fit -> None); for a sequence: the level of
+\* the varying part at each step
+Expected(c) == IF c.kind = "seq" THEN Levels(c.pattern) ELSE <<"within">>
 
 \* model step: enabled iff the bytes written fit the allocation
 WriteEnabled(allocLen, actualLen) == actualLen <= allocLen
 
-\* table sanity: every class is a distinct, well-formed record
-WellFormed(c) == c.shape \in Shapes /\ c.rows \in Rows /\ c.place \in Places
+\* table sanity: every class is a well-formed record; a sequence has 2-3 steps over the two levels
+WellFormed(c) == /\ c.rows \in Rows
+                 /\ (c.kind = "single" => (c.shape \in Shapes /\ c.place \in Places /\ c.pattern = "-"))
+                 /\ (c.kind = "seq" => (c.shape \in SeqFamilies /\ c.place = "chain" /\ c.pattern \in Patterns))
+SeqSteps(c) == c.kind = "seq" => (Len(Expected(c)) \in {2, 3} /\ \A i \in 1..Len(Expected(c)) : Expected(c)[i] \in {"S", "L"})
 
-(* observation o = [result, alloc_len, written, left_ok, right_ok, outside_ok]
+(* observation o = [result, alloc_len, written, left_ok, right_ok, outside_ok]   (one per write; a sequence yields one per step)
      result      "written" | "nofit" (returned None) | "raised" (an exception escaped)
      alloc_len   length of the header-table entry at the returned offset (0 if none)
      written     the bytes_written the implementation reported
-     left_ok / right_ok   the live neighbour batches decode to their originals and their bytes are unchanged
+     left_ok / right_ok   the live neighbour batches (for a sequence: every batch written earlier on the segment)
+                          decode to their originals and their bytes are unchanged
      outside_ok  every byte of the data region outside the batch's own allocation is unchanged           *)
 Conforms(c, o) ==
        (IF o.result = "written" => WriteEnabled(o.alloc_len, o.written) THEN {} ELSE {"WriteWithinAllocation"})
